@@ -210,12 +210,13 @@ def run_shard(spec):
                     want += str(v).encode() + b'\n' + b'66xyz-777keeptrue4242;' + (b'true' if v == 0 else b'false') + b'z\n' + b'33 '
             CompilerError, _ = env.compiler_error_types()
             base = env.compile_src(PROG, word=word, stack=diff.GENEROUS_STACK)
+            top = 48 if tt else diff.GENEROUS_STACK       # inside try bodies a doomed path may wander through the whole stack: keep it small
             args = [str(v) for v in vals]
             ids = [runner.case_id('caller', tt, word, v) for v in vals]
-            g = expect_run(res, PROG, args, word, want, f'caller state around write(int){" inside try blocks" if tt else ""}, word {word}', ids, lines=base)
+            g = expect_run(res, PROG, args, word, want, f'caller state around write(int){" inside try blocks" if tt else ""}, word {word}', ids, lines=with_stack(base, top) if tt else base)
             if g is not None:
                 # smallest stack that reproduces the generous outcome, then the sizes around it
-                lo_s, hi_s = 0, diff.GENEROUS_STACK
+                lo_s, hi_s = 0, top
                 while lo_s + 1 < hi_s:
                     mid = (lo_s + hi_s) // 2
                     rr = diff.run_lines(with_stack(base, mid), args, 3_000_000)
